@@ -14,7 +14,7 @@ namespace Sfw.Canon
 
 /-- the value of a SCEV expression when the SSA values it mentions have the values `env` gives -/
 def SCEV.eval (env : Val → Option Int) : SCEV → Option Int
-  | .addRec _ _ _ => none
+  | .addRec _ _ _ _ => none
   | .const v => some v
   | .unknown none _ => none
   | .unknown (some v) _ => env v
@@ -25,6 +25,13 @@ def SCEV.eval (env : Val → Option Int) : SCEV → Option Int
       else if op == "-" then some (a - b)
       else if op == "*" then some (a * b)
       else if op == "/" then (if b == 0 then none else some (bigQuo a b))
+      else none
+    | _, _ => none
+  | .comm op x y =>
+    match x.eval env, y.eval env with
+    | some a, some b =>
+      if op == "+" then some (a + b)
+      else if op == "*" then some (a * b)
       else none
     | _, _ => none
   | .max x y =>
